@@ -720,6 +720,16 @@ func (s *Store) Flush() error {
 
 	if !s.outstandingWork() {
 		vhook.At("store.flush.no-work")
+		// There is nothing to write, but a writer may have registered for
+		// the next flush notice after the flush that wrote its data had
+		// already completed. Release it, otherwise it is never woken if no
+		// more work arrives.
+		s.rateLk.Lock()
+		if s.flushNotice != nil {
+			close(s.flushNotice)
+			s.flushNotice = nil
+		}
+		s.rateLk.Unlock()
 		return nil
 	}
 
